@@ -278,6 +278,28 @@ def run_case(case):
             if count_lines:
                 i = rng.choice(count_lines)
                 corr.append(("nonnumeric-count", i, rng.choice(BAD_NUM)))
+                # ... a count line that starts with the right number but is not a number: 'n x', 'n m', 'n, m'
+                corr.append(("nonnumeric-count", i, lines[i].strip() + rng.choice([" x", " 4", ", 4", " #"])))
+                if i + 1 < len(lines) and len(lines[i + 1].split()) == 3 and not lines[i + 1].strip().startswith("#"):
+                    # ... the count line is lost (blank): the first edge line stands where the count is read
+                    corr.append(("count-line-lost", i, ""))
+            if cons_lines:
+                # the only edge line that carries an edge of a constraint goes missing (blank line): that constraint edge is then missing from the graph
+                i = rng.choice(cons_lines); t = lines[i].split()
+                if len(t) >= 3:
+                    a_ = rng.randrange(1, len(t) - 1); ce = (t[a_], t[a_ + 1])
+                    j = i
+                    while j < len(lines) and (lines[j].strip().startswith("#") or not lines[j].strip()):
+                        j += 1
+                    j += 1      # (past the count line)
+                    hits = []
+                    while j < len(lines) and not lines[j].strip().startswith("#"):
+                        tt = lines[j].split()
+                        if len(tt) == 3 and (tt[0], tt[1]) == ce:
+                            hits.append(j)
+                        j += 1
+                    if len(hits) == 1:
+                        corr.append(("constraint-edge-line-deleted", hits[0], ""))
             if cons_lines:
                 i = rng.choice(cons_lines); t = lines[i].split()
                 # find which block the line belongs to and whether that block has edges
